@@ -29,6 +29,9 @@ def base_content(game, sizes, keys=4):
             h["hitsound_set"], h["volume"] = [2, 4, 8][i % 3], 10 * (i + 1)
         for i, h in enumerate(holds):
             h["hitsound_file"], h["volume"] = f"f{i}.wav", 30
+    if game == "sm":
+        # stops of different lengths (their list follows the permutation of the fourth list)
+        c["stops"] = [{"offset": 1000.0 + 1500.0 * i, "length": [250.0, 125.0, 500.0][i]} for i in range(ns)]
     if game == "bms":
         for i, h in enumerate(hits + holds):
             h["sample"] = b"a.wav" if i % 3 == 0 else f"s{i}.wav".encode()      # key sounds differ from note to note
@@ -49,6 +52,8 @@ def build(game, sizes, perm, form, apply_perm):
         m.chart_type = "dance-single"
     if apply_perm:
         for k, name in enumerate(LISTS):
+            if name == "svs" and game == "sm":
+                name = "stops"
             if name not in m.objs:
                 continue
             lst = m.objs[name]
@@ -105,7 +110,8 @@ def proj_result(op, game, res):
             return {"objs": t["objs"], "tps": t["tps"], "svs": t["svs"]}
         if game == "sm":
             t = sm_text.lex(res)
-            out = {"bpms": t["bpms"], "hdr": [h for h in t["hdr"] if h["tag"] != "BPMS"]}   # the #BPMS pairs are compared as a bag
+            # the #BPMS and #STOPS pairs are compared as bags
+            out = {"bpms": t["bpms"], "stops": [[x["p"], x["len"]] for x in t["stops"]], "hdr": [h for h in t["hdr"] if h["tag"] not in ("BPMS", "STOPS")]}
             for i, ch in enumerate(t["charts"]):
                 out[f"cells{i}"] = [[c["m"], _frac(c["r"] - 1, c["n"]), c["c"], c["s"]] for c in ch["cells"]]
             return out
